@@ -33,15 +33,28 @@ def generate(ctx):
 
 
 def oracle(inp):
+  """The stated kernel is the one whose hyperparameters were handed over.  When the caller has since written into the array it handed them
+  over in (gpgen.WRITTEN_LIVES) the text leaves a second reading open - a model that consistently FOLLOWS the caller's array is the conditional
+  of the kernel that array describes now - so a failure against the first reading is reported only if the second fails as well (the library
+  copies: the first reading holds on the unchanged tree; a model that follows the array in one place and not in another satisfies neither)."""
+  r = oracle_reading(inp, None)
+  if r and inp["cov"].get("life") in gpgen.WRITTEN_LIVES:
+    if oracle_reading(inp, dict(inp["cov"], hp=gpgen.other_hp(inp["cov"]["hp"]).tolist())) is None:
+      return None
+  return r
+
+
+def oracle_reading(inp, ref_cov):
   def fail(what, observed, expected):
     return dict(signature=f"C02:{what}", what=what, input=inp, observed=observed, expected=expected, oracle="saddle-point system, extended precision + refinement")
+  stated = (lambda d: dict(d, cov=ref_cov)) if ref_cov else (lambda d: d)   # the model the predictions are compared with
   gp = gpgen.make_gp(inp)
-  xs = numpy.array(inp["xs"], dtype=float)
-  rm, rv, rc, cond = gpgen.reference_posterior(inp)
-  alpha = inp["cov"]["hp"][0]
+  xs = gpgen.handover(inp["xs"], inp.get("xs_style"))     # the query points in one of the forms a caller may hand them over in
+  rm, rv, rc, cond = gpgen.reference_posterior(stated(inp))
+  alpha = stated(inp)["cov"]["hp"][0]
   scale = max(1.0, float(numpy.abs(inp["values"]).max()))
   # conditioning-scaled rounding (1e-12*cond) plus the first-order effect of the kernel-entry rounding (see gpgen.kernel_entry_error)
-  dk = gpgen.kernel_entry_error(inp)
+  dk = gpgen.kernel_entry_error(stated(inp))
   ex = gpgen.reference_posterior.extra
   # forward error of the Cholesky solves: |da| <~ eps*cond*|a|, hence |dmean| <~ alpha*eps*cond*|a|_1 (same for the cardinal functions)
   tol_m = (1e-14 * cond * (alpha * ex["a_l1"] + float(numpy.abs(rm).max()) + scale) + 4 * dk * ex["a_l1"] + 1e-9 * scale
@@ -89,8 +102,8 @@ def oracle(inp):
     mb, vb = gp.compute_mean_of_points(big), gp.compute_variance_of_points(big)
     pick = rs.choice(len(big), size=60, replace=False)
     sub = dict(inp, xs=big[pick].tolist())
-    rmb, rvb, _, condb = gpgen.reference_posterior(sub)
-    exb, dkb = gpgen.reference_posterior.extra, gpgen.kernel_entry_error(sub)
+    rmb, rvb, _, condb = gpgen.reference_posterior(stated(sub))
+    exb, dkb = gpgen.reference_posterior.extra, gpgen.kernel_entry_error(stated(sub))
     tmb = (1e-14 * condb * (alpha * exb["a_l1"] + float(numpy.abs(rmb).max()) + scale) + 4 * dkb * exb["a_l1"] + 1e-9 * scale
            + 1e-14 * exb["gls_cond"] * (1 + condb * 1e-6) * exb["pb_l1"])
     tvb = 1e-14 * condb * alpha * (1 + exb["card_l1"]) ** 2 + 8 * dkb * exb["card_l1"] + 1e-9 * alpha
@@ -135,17 +148,37 @@ def oracle(inp):
     gp.append_lie_data(numpy.array(lies, dtype=float))
     worst = max(inp["values"])
     inp4 = dict(inp, points=inp["points"] + lies, values=inp["values"] + [worst] * len(lies), noise=inp["noise"] + [1e-12] * len(lies))
-    rm4, rv4, _, cond4 = gpgen.reference_posterior(inp4)
-    ex4, dk4 = gpgen.reference_posterior.extra, gpgen.kernel_entry_error(inp4)   # the same justified bound as tol_m, for the extended data set
+    rm4, rv4, _, cond4 = gpgen.reference_posterior(stated(inp4))
+    ex4, dk4 = gpgen.reference_posterior.extra, gpgen.kernel_entry_error(stated(inp4))   # the same justified bound as tol_m, for the extended data set
     t4 = (1e-14 * cond4 * (alpha * ex4["a_l1"] + float(numpy.abs(rm4).max()) + scale) + 4 * dk4 * ex4["a_l1"] + 1e-9 * scale + tol_m
           + 1e-14 * ex4["gls_cond"] * (1 + cond4 * 1e-6) * ex4["pb_l1"])
     if numpy.abs(gp.compute_mean_of_points(xs) - rm4).max() > t4:
       return fail("after append_lie_data the mean is not the posterior of the extended data", gp.compute_mean_of_points(xs).tolist(), rm4.tolist())
+  # the data of a live GP replaced as a whole (update_historical_data - what append_lie_data itself ends with, and what happens when real
+  # results replace lies): the model is the posterior of the data it holds NOW, nothing of the earlier data set may survive in a cache
+  new = inp.get("replace")
+  if new:
+    from libsigopt.compute.misc.data_containers import HistoricalData
+    hd = HistoricalData(xs.shape[1])
+    hd.append_historical_data(numpy.array(new["points"], dtype=float), numpy.array(new["values"], dtype=float), numpy.array(new["noise"], dtype=float))
+    gp.update_historical_data(hd)
+    inp5 = dict(inp, points=new["points"], values=new["values"], noise=new["noise"])
+    rm5, rv5, _, cond5 = gpgen.reference_posterior(stated(inp5))
+    ex5, dk5 = gpgen.reference_posterior.extra, gpgen.kernel_entry_error(stated(inp5))   # the justified bounds of tol_m / tol_v, for the new data set
+    scale5 = max(1.0, float(numpy.abs(new["values"]).max()))
+    t5 = (1e-14 * cond5 * (alpha * ex5["a_l1"] + float(numpy.abs(rm5).max()) + scale5) + 4 * dk5 * ex5["a_l1"] + 1e-9 * scale5
+          + 1e-14 * ex5["gls_cond"] * (1 + cond5 * 1e-6) * ex5["pb_l1"])
+    tv5 = 1e-14 * cond5 * alpha * (1 + ex5["card_l1"]) ** 2 + 8 * dk5 * ex5["card_l1"] + 1e-9 * alpha
+    m5, v5 = gp.compute_mean_and_variance_of_points(xs)
+    if numpy.abs(m5 - rm5).max() > t5:
+      return fail("after update_historical_data the mean is not the posterior of the new data", m5.tolist(), rm5.tolist())
+    if numpy.abs(v5 - numpy.maximum(rv5, 1e-100)).max() > tv5:
+      return fail("after update_historical_data the variance is not the posterior variance of the new data", v5.tolist(), rv5.tolist())
   return None
 
 
 def gen_input(rng):
-  inp = gpgen.gen_gp_input(rng)
+  inp = gpgen.gen_gp_input(rng, caller_writes=True)
   n = len(inp["points"])
   if rng.random() < 0.02:
     inp["big_batch"] = dict(seed=rng.randrange(10 ** 6), n=-(-100000 // n) + rng.randint(1, 500))   # n_query * n_observed >= 1e5
@@ -165,6 +198,19 @@ def gen_input(rng):
   if rng.random() < 0.3 and inp.get("tikhonov") is None:
     dim = len(inp["points"][0])
     inp["lies"] = [[rng.uniform(0, 1) for _ in range(dim)] for _ in range(rng.randint(1, 2))]
+  if rng.random() < 0.25:    # the whole data set replaced on the live object: fewer / as many / more points, elsewhere
+    dim, n2 = len(inp["points"][0]), max(len(inp.get("mean_idx") or []) + 1, n + rng.choice([-2, -1, 0, 0, 1, 2]))
+    shift = [0.0] * dim
+    if any(abs(v) > 100 for v in inp["points"][0]):   # keep the new points in the region the (possibly offset) inputs live in
+      shift = [inp["points"][0][k] - (inp["points"][0][k] % 20.0) if abs(inp["points"][0][k]) > 100 else 0.0 for k in range(dim)]
+    lvl = sum(inp["noise"]) / n
+    inp["replace"] = dict(points=[[shift[k] + (20.0 if shift[k] else 1.0) * rng.uniform(0, 1) for k in range(dim)] for _ in range(n2)],
+                          values=[rng.uniform(-1, 1) for _ in range(n2)], noise=[max(lvl, 1e-6) * rng.uniform(0.5, 2) for _ in range(n2)])
+  if rng.random() < 0.25:    # how the arrays are handed over (same numbers): Fortran order, strided view, read-only, float32 / integer dtype
+    inp["xs_style"], inp["data_style"] = rng.choice(gpgen.HANDOVER_STYLES), rng.choice(gpgen.HANDOVER_STYLES)
+    if inp["xs_style"] in ("float32", "int") and not inp.get("big_batch"):
+      g = 64.0 if inp["xs_style"] == "float32" else 1.0     # make the narrower dtype applicable: query points on a grid it represents exactly
+      inp["xs"] = [[round(v * g) / g for v in x] for x in inp["xs"]]
   return inp
 
 
@@ -200,3 +246,13 @@ LEVEL_TEXT += ("; the sum of GPs also through its gradient and joint entry point
                "monomials, shortcut branches included)")
 LEVEL_NOTE = LEVEL_NOTE.replace("permutation invariance and appended lie data are decided by the", "appended lie data is decided by the")
 TECHNIQUE += " + in-Coq differential correspondence for the polynomial builders"
+
+# --- gap round A: how the hyperparameters are handed over
+ASSUMPTIONS.append("'the stated kernel': the hyperparameters as handed over (constructor or setter).  When the caller later writes into the float64 array it "
+                   "handed them over in, a failure is reported only if the predictions are the conditional of neither the kernel handed over nor the kernel "
+                   "the array describes now (the library copies; gpgen.WRITTEN_LIVES: array written right after construction / after assignment / after the "
+                   "GP was built on the kernel)")
+LEVEL_NOTE += ("; object histories of the kernel (gpgen.make_cov) include hyperparameter arrays that their owner re-uses after handing them over, before "
+               "and after the GP is built")
+LEVEL_NOTE += ("; histories of the live GP include the replacement of its whole data set (update_historical_data); query points and data arrays are also "
+               "handed over in the forms of gpgen.HANDOVER_STYLES")
